@@ -284,9 +284,129 @@ def rule_lm_kkt(chk, prog):
                 chk.sample({"rule": "LM-KKT", "function": inst, "shapes": sorted(SHAPES), "paths": n_eval})
 
 
+def rule_minlm_argmin(chk, prog):
+    """The split candidate: compute_dfdv(v,u,min_lm) / findMinLM must return the *inequality* constraint with the smallest
+    multiplier.  Leaves of the symbolic decision tree are located for random positive numeric assignments (exact rationals)
+    and the selected constraint is compared with the numeric argmin over the non-equality constraints."""
+    import random
+    from ..microai.poly import r_add, r_sub, r_mul, r_div
+    r = chk.rule("MINLM-ARGMIN", "findMinLM() and compute_dfdv(v, nullptr, min_lm): on every leaf of the decision tree reached by 60 random "
+                 "positive assignments per block shape, the constraint handed back is an inequality whose multiplier is minimal among all "
+                 "inequality constraints of the block (equalities are never split candidates; nullptr iff there is no inequality)", floor=2)
+    rng = random.Random(12345)
+    shapes = {"chain3": (3, [(0, 1), (1, 2)]), "fork-out": (3, [(0, 1), (0, 2)]), "chain4": (4, [(0, 1), (1, 2), (2, 3)])}
+    for ns in ("vpsc", "Avoid"):
+        fn = prog.fn(ns + "::Block::findMinLM")
+        bad = None
+        n_pts = 0
+        n_leaves = 0
+        for sname, (n, edges) in sorted(shapes.items()):
+            for eqmask in range(1 << len(edges)):
+                vs = [mkvar(ns, i, False) for i in range(n)]
+                cs = [mkcon(ns, vs[a], vs[b], i, equality=bool(eqmask >> i & 1)) for i, (a, b) in enumerate(edges)]
+                b = mkblock(ns, vs, False)
+                try:
+                    rows = run_all(prog, fn, b, [cs])
+                except Unsupported as e:
+                    raise AnalysisBroken("%s::Block::findMinLM outside the interpreter subset: %s" % (ns, e))
+                n_leaves += len(rows)
+                syms = sorted(set().union(*[to_poly(v.f[k]).vars() for v in vs for k in ("weight", "offset", "desiredPosition")]) | {"posn"})
+                for _ in range(60 if eqmask in (0, 1, 2) else 15):
+                    env = {s_: Fraction(rng.randint(1, 9)) for s_ in syms}
+                    for s_ in syms:
+                        if s_.startswith("d") or s_ == "posn" or s_.startswith("o"):
+                            env[s_] = Fraction(rng.randint(-9, 9))
+                    hit = None
+                    for val, descr, out in rows:
+                        ok = True
+                        for k, v in val.items():
+                            pl = Poly({m: Fraction(c[0], c[1]) for m, c in k[1]})
+                            e = pl.eval_exact(env)
+                            if ((e > 0) - (e < 0)) != v:
+                                ok = False
+                                break
+                        if ok:
+                            hit = (val, descr, out)
+                            break
+                    if hit is None:
+                        bad = bad or "%s eq=%s: no leaf of the decision tree covers a sampled assignment" % (sname, bin(eqmask))
+                        continue
+                    n_pts += 1
+                    out = hit[2]
+                    if out[0] != "ret":
+                        continue
+                    cc = out[3][0]
+                    m = out[1]
+                    lms = []
+                    for c in cc:
+                        n_, d_ = num_den(c.f["lm"])
+                        lms.append(n_.eval_exact(env) / d_.eval_exact(env))
+                    ineq = [i for i, c in enumerate(cc) if not c.f["equality"]]
+                    if not ineq:
+                        if m is not None:
+                            bad = bad or "%s eq=%s: returns a constraint although the block has only equalities" % (sname, bin(eqmask))
+                        continue
+                    idx = [i for i, c in enumerate(cc) if c is m]
+                    if not idx:
+                        bad = bad or "%s eq=%s: returns %s although inequality constraints exist" % (sname, bin(eqmask), "nullptr" if m is None else "a foreign constraint")
+                    elif idx[0] not in ineq:
+                        bad = bad or "%s eq=%s: returns an equality constraint as the split candidate" % (sname, bin(eqmask))
+                    elif lms[idx[0]] != min(lms[i] for i in ineq):
+                        bad = bad or "%s eq=%s: returns the constraint with multiplier %s, but an inequality with multiplier %s exists" % (
+                            sname, bin(eqmask), lms[idx[0]], min(lms[i] for i in ineq))
+        r.count(n_pts)
+        (r.bad if bad else r.ok)(ns + "::Block::findMinLM", fn.where(), bad or "%d leaves, %d sampled assignments" % (n_leaves, n_pts))
+
+
+def rule_refine_rescan(chk, prog):
+    from ..astq import norm, strip, calls, literal_value, writes
+    from ..rules.guards import path_condition, entails, atoms
+    r = chk.rule("REFINE-FIXPOINT", "Solver::refine (static solver): the scan that looks for a constraint with negative multiplier covers all "
+                 "blocks [0, bs->size()) afresh in every round of the while loop, the loop only ends when a whole round found none (or the "
+                 "iteration bound is hit), and a split restarts the round", floor=1)
+    fn = prog.fn("vpsc::Solver::refine")
+    bad = None
+    fm = [n for n in calls(fn) if n.get("cname") == "vpsc::Block::findMinLM"]
+    if len(fm) != 1:
+        raise AnalysisBroken("Solver::refine: expected one findMinLM call")
+    loop = None
+    wl = None
+    for a in fn.ancestors(fm[0]):
+        if a.get("k") == "ForStmt" and loop is None:
+            loop = a
+        if a.get("k") == "WhileStmt" and wl is None:
+            wl = a
+    if loop is None or wl is None:
+        bad = "findMinLM is not inside a block scan nested in the refinement loop"
+    else:
+        d = loop["init"]["decls"][0] if loop.get("init") is not None and loop["init"].get("k") == "DeclStmt" else None
+        if d is None or literal_value(d.get("init")) != "0":
+            bad = "the block scan does not start at block 0 in every round (init `%s`)" % (norm(d.get("init")) if d else "?")
+        elif norm(loop.get("cond")) != "(%s < length)" % d["name"]:
+            bad = "the block scan bound is `%s`" % norm(loop.get("cond"))
+        else:
+            ld = [n for n in fn.nodes() if n.get("k") == "VarDecl" and n.get("name") == "length"]
+            if not ld or norm(ld[0].get("init")) != "bs.size()" or not any(x.get("id") == wl["id"] for x in fn.ancestors(ld[0])):
+                bad = "`length` is not bs->size() recomputed in every round"
+        if norm(wl.get("cond")) != "(!solved && (maxtries > 0))":
+            bad = bad or "refinement loop condition is `%s`" % norm(wl.get("cond"))
+        sets_false = [node for lhs, node, op in writes(fn) if norm(lhs) == "solved" and literal_value(node["ch"][1]) == "false" and any(x.get("id") == wl["id"] for x in fn.ancestors(node))]
+        sets_true = [node for lhs, node, op in writes(fn) if norm(lhs) == "solved" and literal_value(node["ch"][1]) == "true" and any(x.get("id") == wl["id"] for x in fn.ancestors(node))]
+        if not sets_true or not sets_false:
+            bad = bad or "the `solved` flag is not reset per round / cleared on a split"
+        for sf in sets_false:
+            pc = path_condition(fn, sf, inline=False)
+            if not any("lm <" in a_ for a_ in atoms(pc)):
+                bad = bad or "solved=false not tied to a negative multiplier"
+    r.count()
+    (r.bad if bad else r.ok)("vpsc::Solver::refine", fn.where(), bad or "")
+
+
 def run(chk):
     prog = chk.load()
     rule_block_optimum(chk, prog)
+    rule_minlm_argmin(chk, prog)
+    rule_refine_rescan(chk, prog)
     rule_dfdv_form(chk, prog)
     rule_lm_kkt(chk, prog)
     r = chk.rule("SIBLING", "every function of libavoid's solver copy is structurally identical to its libvpsc counterpart "
